@@ -591,10 +591,10 @@ class t2data(object):
                 if nad >=2 :
                     vals = infile.read_values('rocks1.2')
                     self.grid.rocktype[name].relative_permeability['type'] = vals[0]
-                    self.grid.rocktype[name].relative_permeability['parameters'] = vals[2: -1]
+                    self.grid.rocktype[name].relative_permeability['parameters'] = vals[2:]
                     vals = infile.read_values('rocks1.3')
                     self.grid.rocktype[name].capillarity['type'] = vals[0]
-                    self.grid.rocktype[name].capillarity['parameters'] = vals[2: -1]
+                    self.grid.rocktype[name].capillarity['parameters'] = vals[2:]
             line = padstring(infile.readline())
 
     def skip_rocktypes(self, infile):
